@@ -5,6 +5,8 @@ import WnVerif.Model.Remove
 import WnVerif.Model.Api
 import WnVerif.Model.Morphy
 import WnVerif.Model.Txn
+import WnVerif.Model.Export
+import WnVerif.Drv.Lmf
 open Lean
 namespace WnVerif.Drv
 open WnVerif.Db WnVerif.Doc
@@ -212,6 +214,24 @@ def stepStore (env : Env) (op : Json) (defaultRank : Nat) : Env × Json :=
         jObj [("words", jArr ((words db w env.norm lem form pos).map (jWordRef db))),
               ("senses", jArr ((senses db w env.norm lem form pos).map (jSenseRef db))),
               ("synsets", jArr ((synsets db w env.norm lem form pos none).map fun y => jArr [jStr (lexSpec db y.lex), jStr y.id]))])
+  | "export" =>
+    (env, match Glob.findLexicons env.db (getStr op "lexicons") none with
+      | none => jStr "no-lexicon"
+      | some rows =>
+        let v := getStr op "v" "1.0"
+        match exportResource env.db rows v with
+        | none => jStr "error"
+        | some r =>
+          match Lmf.loadTree v (Lmf.dumpTree r) with
+          | .error e => jObj [("reload_error", jStr e)]
+          | .ok r' =>
+            match getObj? op "expect" with
+            | some e =>
+              let want := decResource e
+              let same := (eResource r').compress == (eResource want).compress
+              jObj [("equal", jBool same), ("model", if same then Json.null else eResource r'),
+                    ("impl", if same then Json.null else eResource want)]
+            | none => jObj [("model", eResource r')])
   | "lexicons" =>
     (env, match mkWordnet env.db (optStr op "lexicon") (optStr op "lang") none with
       | some w => jStrs (w.lexids.map (lexSpec env.db))
